@@ -1,11 +1,355 @@
-// stub (filled in later)
+// Floating-point operation table: C02 (basic IEEE ops) and C08 (rounding) lane judges,
+// floating lattice and rapidcheck value classes (DESIGN 2.5, 4/C02, 4/C08).
 #ifndef XSV_OPS_FP_HPP
 #define XSV_OPS_FP_HPP
 #include "elem_gen.hpp"
-namespace xsv {
-inline std::vector<uint64_t> fp_lattice(TypeId) { return {0}; }
-inline rc::Gen<uint64_t> gen_fp_bits(TypeId) { return rc::gen::just<uint64_t>(0); }
-inline uint64_t fp_relate(TypeId, uint64_t a, int, uint64_t) { return a; }
-inline void register_fp_ops() {}
+#include "fp_model.hpp"
+
+namespace xsv
+{
+    template <class T>
+    inline uint64_t fb(T x)
+    {
+        return (uint64_t)model::bits(x);
+    }
+
+    template <class T>
+    inline std::vector<uint64_t> fp_lattice_t()
+    {
+        using L = std::numeric_limits<T>;
+        using U = typename model::fpt<T>::U;
+        std::set<uint64_t> s;
+        auto add = [&](T v) {
+            s.insert(fb(v));
+            s.insert(fb((T)-v));
+        };
+        const T eps = L::epsilon();
+        for (T v : { (T)0, L::denorm_min(), (T)(L::min() / 2), L::min(), (T)(L::min() * (1 + eps)), (T)(eps / 2), (T)1, (T)(1 + eps), (T)(1 - eps / 2), (T)0.5,
+                     std::nextafter((T)0.5, (T)0), (T)1.5, (T)2.5, (T)3, (T)0.1, (T)1e10, L::max(), std::nextafter(L::max(), (T)0), L::infinity(),
+                     (T)8388608.0, (T)8388607.0, (T)8388609.0, (T)8388607.5, (T)4194304.5, (T)16777215.0, (T)16777216.0, (T)2147483648.0, (T)2147483904.0, (T)4294967296.0,
+                     (T)4503599627370496.0, (T)4503599627370497.0, (T)4503599627370495.0, (T)9007199254740992.0, (T)4611686018427387904.0, (T)9223372036854775808.0,
+                     (T)2147483647.0, (T)2147483520.0, (T)0.49999997, (T)127.5, (T)128.5, (T)-2147483649.0 })
+            add(v);
+        // quiet and signalling NaNs with payloads
+        const U qn = model::bits(L::quiet_NaN());
+        s.insert((uint64_t)qn);
+        s.insert((uint64_t)(qn | model::fpt<T>::sign | 0x1234));
+        s.insert((uint64_t)((qn & ~((U)1 << (model::fpt<T>::mant - 1))) | 1)); // signalling
+        return std::vector<uint64_t>(s.begin(), s.end());
+    }
+    inline std::vector<uint64_t> fp_lattice(TypeId t) { return t == F32 ? fp_lattice_t<float>() : fp_lattice_t<double>(); }
+
+    // ---------------------------------------------------------------- value classes
+    template <class T>
+    inline uint64_t fp_from_parts(bool neg, int exp /*unbiased*/, uint64_t mant)
+    {
+        using U = typename model::fpt<T>::U;
+        const int bias = model::fpt<T>::emax;
+        U u = ((U)(exp + bias) << model::fpt<T>::mant) | (U)(mant & (((U)1 << model::fpt<T>::mant) - 1));
+        if (neg)
+            u |= model::fpt<T>::sign;
+        return (uint64_t)u;
+    }
+    template <class T>
+    inline rc::Gen<uint64_t> gen_fp_bits_t()
+    {
+        using U = typename model::fpt<T>::U;
+        const int M = model::fpt<T>::mant;
+        auto lat = fp_lattice_t<T>();
+        auto mantg = rc::gen::map(rc::gen::arbitrary<uint64_t>(), [](uint64_t v) { return mix64(v); });
+        return sized(rc::gen::weightedOneOf<uint64_t>({
+            { 3, rc::gen::elementOf(lat) },
+            // uniform bit patterns
+            { 3, rc::gen::map(rc::gen::arbitrary<uint64_t>(), [](uint64_t v) { return mix64(v) & (uint64_t)(U)~(U)0; }) },
+            // moderate magnitude: exponent uniform in [-30,30]
+            { 4, rc::gen::map(rc::gen::tuple(rc::gen::arbitrary<bool>(), rc::gen::inRange<int>(-30, 31), mantg), [](std::tuple<bool, int, uint64_t> p) { return fp_from_parts<T>(std::get<0>(p), std::get<1>(p), std::get<2>(p)); }) },
+            // integers and half-integers
+            { 2, rc::gen::map(rc::gen::tuple(rc::gen::inRange<int64_t>(-70000, 70001), rc::gen::inRange<int>(0, 4)), [](std::tuple<int64_t, int> p) { return fb((T)((T)std::get<0>(p) + (T)0.25 * (T)std::get<1>(p))); }) },
+            // near 2^M (integer spacing boundary) and 2^31 / 2^63
+            { 2, rc::gen::map(rc::gen::tuple(rc::gen::element<int>(M - 1, M, M + 1, 31, 32, 63, 64, 30, 62), rc::gen::inRange<int>(-8, 9), rc::gen::arbitrary<bool>()), [](std::tuple<int, int, bool> p) {
+                    T v = std::ldexp((T)1, std::get<0>(p));
+                    int k = std::get<1>(p);
+                    for (int i = 0; i < std::abs(k); ++i)
+                        v = std::nextafter(v, k > 0 ? std::numeric_limits<T>::infinity() : (T)0);
+                    return fb((T)(std::get<2>(p) ? -v : v)); }) },
+            // subnormals and tiny normals
+            { 1, rc::gen::map(rc::gen::tuple(rc::gen::arbitrary<bool>(), mantg), [](std::tuple<bool, uint64_t> p) { return (uint64_t)((U)(std::get<1>(p) & ((((U)1) << (model::fpt<T>::mant + 2)) - 1)) | (std::get<0>(p) ? model::fpt<T>::sign : (U)0)); }) },
+            // huge (top 4 binades)
+            { 1, rc::gen::map(rc::gen::tuple(rc::gen::arbitrary<bool>(), rc::gen::inRange<int>(model::fpt<T>::emax - 3, model::fpt<T>::emax + 1), mantg), [](std::tuple<bool, int, uint64_t> p) { return fp_from_parts<T>(std::get<0>(p), std::get<1>(p), std::get<2>(p)); }) },
+        }));
+    }
+    inline rc::Gen<uint64_t> gen_fp_bits(TypeId t) { return t == F32 ? gen_fp_bits_t<float>() : gen_fp_bits_t<double>(); }
+
+    template <class T>
+    inline uint64_t fp_relate_t(uint64_t abits, int how, uint64_t r)
+    {
+        using U = typename model::fpt<T>::U;
+        using L = std::numeric_limits<T>;
+        T a = model::from_bits<T>((U)abits);
+        switch (how)
+        {
+        case 0: return abits;
+        case 1: return fb(std::nextafter(a, L::infinity()));
+        case 2: return fb(std::nextafter(a, -L::infinity()));
+        case 3: return fb((T)-a);
+        case 4: return fb((T)(-a * (1 + (T)((int)(r % 7) - 3) * L::epsilon()))); // cancellation partner
+        case 5: return fb((T)(L::max() / a)); // product near overflow threshold
+        default: return fb((T)(L::min() / a)); // product near underflow threshold
+        }
+    }
+    inline uint64_t fp_relate(TypeId t, uint64_t a, int how, uint64_t r) { return t == F32 ? fp_relate_t<float>(a, how, r) : fp_relate_t<double>(a, how, r); }
+
+    // ---------------------------------------------------------------- judges
+    template <class F>
+    inline OpDef& def_fp(const char* name, const char* prop, int arity, F f)
+    {
+        OpDef& d = new_op(name, prop, "fp", arity);
+        d.judge[F32] = make_judge<float, float>(f);
+        d.judge[F64] = make_judge<double, double>(f);
+        return d;
+    }
+    template <class F>
+    inline OpDef& def_fp_bool(const char* name, const char* prop, int arity, F f)
+    {
+        OpDef& d = new_op(name, prop, "fp", arity);
+        d.out = O_BOOL;
+        d.judge[F32] = make_judge<float, uint8_t>(f);
+        d.judge[F64] = make_judge<double, uint8_t>(f);
+        return d;
+    }
+    template <class F>
+    inline OpDef& def_fp_toint(const char* name, const char* prop, int arity, F f)
+    {
+        OpDef& d = new_op(name, prop, "fp", arity);
+        d.out = O_OTHER;
+        d.out_type[F32] = I32;
+        d.out_type[F64] = I64;
+        d.judge[F32] = make_judge<float, int32_t>(f);
+        d.judge[F64] = make_judge<double, int64_t>(f);
+        return d;
+    }
+
+    template <class T>
+    inline unsigned fp_cls(T a)
+    {
+        return model::is_special(a) ? (unsigned)CL_SPECIAL : 0u;
+    }
+    template <class T>
+    inline int fin_same(T got, T exp, unsigned& cls)
+    {
+        cls |= fp_cls(exp);
+        return model::same(got, exp) ? J_OK : J_FAIL;
+    }
+    template <class T>
+    inline int fin_bits(T got, T exp, unsigned& cls)
+    {
+        cls |= fp_cls(exp);
+        return model::bits(got) == model::bits(exp) ? J_OK : J_FAIL;
+    }
+    template <class T>
+    inline int fin_numeq(T got, T exp, unsigned& cls)
+    {
+        cls |= fp_cls(exp);
+        return model::numeq(got, exp) ? J_OK : J_FAIL;
+    }
+    // fma family: fused or unfused reference; either zero sign when the accepted reference is an exact zero
+    template <class T>
+    inline int fin_fma(T got, T fusedv, T unfusedv, unsigned& cls)
+    {
+        cls |= fp_cls(fusedv);
+        if (!model::same(fusedv, unfusedv))
+            cls |= CL_FUSEDIFF;
+        if (model::same(got, fusedv) || model::same(got, unfusedv))
+            return J_OK;
+        if (got == 0 && (fusedv == 0 || unfusedv == 0))
+            return J_OK;
+        return J_FAIL;
+    }
+
+#define XSV_FT typename std::remove_reference<decltype(exp)>::type
+
+    inline void register_fp_ops()
+    {
+        using namespace model;
+        auto j_add = XSV_J { using T = XSV_T; exp = a[0] + a[1]; cls |= fp_cls(a[0]) | fp_cls(a[1]) | (add_inexact(a[0], a[1]) ? CL_INEXACT : 0); return fin_same<T>(got, exp, cls); };
+        auto j_sub = XSV_J { using T = XSV_T; exp = a[0] - a[1]; cls |= fp_cls(a[0]) | fp_cls(a[1]) | (add_inexact(a[0], (T)-a[1]) ? CL_INEXACT : 0); return fin_same<T>(got, exp, cls); };
+        auto j_mul = XSV_J { using T = XSV_T; exp = a[0] * a[1]; cls |= fp_cls(a[0]) | fp_cls(a[1]) | (mul_inexact(a[0], a[1]) ? CL_INEXACT : 0); return fin_same<T>(got, exp, cls); };
+        auto j_div = XSV_J { using T = XSV_T; exp = a[0] / a[1]; cls |= fp_cls(a[0]) | fp_cls(a[1]) | (mul_inexact(exp, a[1]) || exp * a[1] != a[0] ? CL_INEXACT : 0); return fin_same<T>(got, exp, cls); };
+        auto j_sqrt = XSV_J { using T = XSV_T; exp = std::sqrt(a[0]); cls |= fp_cls(a[0]) | (exp * exp != a[0] || mul_inexact(exp, exp) ? CL_INEXACT : 0); return fin_same<T>(got, exp, cls); };
+        for (const char* n : { "add", "op_add", "op_add_assign" })
+            def_fp(n, "C02", 2, j_add);
+        for (const char* n : { "sub", "op_sub", "op_sub_assign" })
+            def_fp(n, "C02", 2, j_sub);
+        for (const char* n : { "mul", "op_mul", "op_mul_assign" })
+            def_fp(n, "C02", 2, j_mul);
+        for (const char* n : { "div", "op_div", "op_div_assign" })
+            def_fp(n, "C02", 2, j_div);
+        def_fp("sqrt", "C02", 1, j_sqrt);
+        // sign / bit-pattern operations: bitwise comparison
+        auto j_neg = XSV_J { using T = XSV_T; exp = from_bits<T>(bits(a[0]) ^ fpt<T>::sign); cls |= fp_cls(a[0]) | CL_NEG; return fin_bits<T>(got, exp, cls); };
+        auto j_abs = XSV_J { using T = XSV_T; exp = from_bits<T>(bits(a[0]) & ~fpt<T>::sign); cls |= fp_cls(a[0]) | (std::signbit(a[0]) ? CL_NEG : 0); return fin_bits<T>(got, exp, cls); };
+        auto j_copysign = XSV_J { using T = XSV_T; exp = from_bits<T>((bits(a[0]) & ~fpt<T>::sign) | (bits(a[1]) & fpt<T>::sign)); cls |= fp_cls(a[0]) | fp_cls(a[1]) | (std::signbit(a[0]) != std::signbit(a[1]) ? CL_NEG : 0); return fin_bits<T>(got, exp, cls); };
+        auto j_bitofsign = XSV_J { using T = XSV_T; exp = from_bits<T>(bits(a[0]) & fpt<T>::sign); cls |= fp_cls(a[0]) | (std::signbit(a[0]) ? CL_NEG : 0); return fin_bits<T>(got, exp, cls); };
+        auto j_and = XSV_J { using T = XSV_T; exp = from_bits<T>(bits(a[0]) & bits(a[1])); cls |= CL_BOUNDARY; return fin_bits<T>(got, exp, cls); };
+        auto j_or = XSV_J { using T = XSV_T; exp = from_bits<T>(bits(a[0]) | bits(a[1])); cls |= CL_BOUNDARY; return fin_bits<T>(got, exp, cls); };
+        auto j_xor = XSV_J { using T = XSV_T; exp = from_bits<T>(bits(a[0]) ^ bits(a[1])); cls |= CL_BOUNDARY; return fin_bits<T>(got, exp, cls); };
+        auto j_andnot = XSV_J { using T = XSV_T; exp = from_bits<T>(bits(a[0]) & ~bits(a[1])); cls |= CL_BOUNDARY; return fin_bits<T>(got, exp, cls); };
+        auto j_not = XSV_J { using T = XSV_T; exp = from_bits<T>(~bits(a[0])); cls |= CL_BOUNDARY; return fin_bits<T>(got, exp, cls); };
+        for (const char* n : { "neg", "op_neg" })
+            def_fp(n, "C02", 1, j_neg);
+        for (const char* n : { "abs", "fabs" })
+            def_fp(n, "C02", 1, j_abs);
+        def_fp("copysign", "C02", 2, j_copysign);
+        def_fp("bitofsign", "C02", 1, j_bitofsign);
+        for (const char* n : { "and", "op_and" })
+            def_fp(n, "C02", 2, j_and);
+        for (const char* n : { "or", "op_or" })
+            def_fp(n, "C02", 2, j_or);
+        for (const char* n : { "xor", "op_xor" })
+            def_fp(n, "C02", 2, j_xor);
+        def_fp("andnot", "C02", 2, j_andnot);
+        for (const char* n : { "not", "op_not" })
+            def_fp(n, "C02", 1, j_not);
+        // fma family
+        auto j_fma = XSV_J { using T = XSV_T; exp = fused(a[0], a[1], a[2]); cls |= fp_cls(a[0]) | fp_cls(a[1]) | fp_cls(a[2]); return fin_fma<T>(got, exp, mul_add_unfused(a[0], a[1], a[2]), cls); };
+        auto j_fms = XSV_J { using T = XSV_T; exp = fused(a[0], a[1], (T)-a[2]); cls |= fp_cls(a[0]) | fp_cls(a[1]) | fp_cls(a[2]); return fin_fma<T>(got, exp, mul_add_unfused(a[0], a[1], (T)-a[2]), cls); };
+        auto j_fnma = XSV_J { using T = XSV_T; exp = fused((T)-a[0], a[1], a[2]); cls |= fp_cls(a[0]) | fp_cls(a[1]) | fp_cls(a[2]); return fin_fma<T>(got, exp, mul_add_unfused((T)-a[0], a[1], a[2]), cls); };
+        auto j_fnms = XSV_J { using T = XSV_T; exp = fused((T)-a[0], a[1], (T)-a[2]); cls |= fp_cls(a[0]) | fp_cls(a[1]) | fp_cls(a[2]); return fin_fma<T>(got, exp, mul_add_unfused((T)-a[0], a[1], (T)-a[2]), cls); };
+        def_fp("fma", "C02", 3, j_fma);
+        def_fp("fms", "C02", 3, j_fms);
+        def_fp("fnma", "C02", 3, j_fnma);
+        def_fp("fnms", "C02", 3, j_fnms);
+        // min / max: claimed when neither operand is NaN; result compares equal to the smaller/larger operand
+        auto j_min = XSV_J { using T = XSV_T; if (std::isnan(a[0]) || std::isnan(a[1])) return J_SKIP; exp = a[1] < a[0] ? a[1] : a[0]; cls |= fp_cls(a[0]) | fp_cls(a[1]) | (a[0] == a[1] ? CL_TIE : 0); return (got == exp && !std::isnan(got)) ? J_OK : J_FAIL; };
+        auto j_max = XSV_J { using T = XSV_T; if (std::isnan(a[0]) || std::isnan(a[1])) return J_SKIP; exp = a[1] > a[0] ? a[1] : a[0]; cls |= fp_cls(a[0]) | fp_cls(a[1]) | (a[0] == a[1] ? CL_TIE : 0); return (got == exp && !std::isnan(got)) ? J_OK : J_FAIL; };
+        def_fp("min", "C02", 2, j_min);
+        def_fp("max", "C02", 2, j_max);
+        // predicates
+        auto pred = [](bool e, uint8_t got, uint8_t& exp, unsigned& cls) -> int { exp = e ? 1 : 0; cls |= e ? CL_TRUE : CL_FALSE; return got == exp ? J_OK : J_FAIL; };
+        auto j_isnan = [pred](auto* a, int64_t, uint8_t got, uint8_t& exp, unsigned& cls) -> int { cls |= fp_cls(a[0]); return pred(std::isnan(a[0]), got, exp, cls); };
+        auto j_isinf = [pred](auto* a, int64_t, uint8_t got, uint8_t& exp, unsigned& cls) -> int { cls |= fp_cls(a[0]); return pred(std::isinf(a[0]), got, exp, cls); };
+        auto j_isfinite = [pred](auto* a, int64_t, uint8_t got, uint8_t& exp, unsigned& cls) -> int { cls |= fp_cls(a[0]); return pred(std::isfinite(a[0]), got, exp, cls); };
+        auto j_isflint = [pred](auto* a, int64_t, uint8_t got, uint8_t& exp, unsigned& cls) -> int { cls |= fp_cls(a[0]); return pred(std::isfinite(a[0]) && std::trunc(a[0]) == a[0], got, exp, cls); };
+        auto j_iseven = [pred](auto* a, int64_t, uint8_t got, uint8_t& exp, unsigned& cls) -> int {
+            using T = typename std::remove_cv<typename std::remove_reference<decltype(a[0])>::type>::type;
+            cls |= fp_cls(a[0]);
+            bool fl = std::isfinite(a[0]) && std::trunc(a[0]) == a[0];
+            T h = a[0] / 2; // exact unless a is the smallest subnormal (then a is not integral anyway)
+            return pred(fl && std::trunc(h) == h && h * 2 == a[0], got, exp, cls);
+        };
+        auto j_isodd = [pred](auto* a, int64_t, uint8_t got, uint8_t& exp, unsigned& cls) -> int {
+            using T = typename std::remove_cv<typename std::remove_reference<decltype(a[0])>::type>::type;
+            cls |= fp_cls(a[0]);
+            bool fl = std::isfinite(a[0]) && std::trunc(a[0]) == a[0];
+            T h = a[0] / 2;
+            bool even = fl && std::trunc(h) == h && h * 2 == a[0];
+            return pred(fl && !even, got, exp, cls);
+        };
+        def_fp_bool("isnan", "C02", 1, j_isnan);
+        def_fp_bool("isinf", "C02", 1, j_isinf);
+        def_fp_bool("isfinite", "C02", 1, j_isfinite);
+        def_fp_bool("is_flint", "C02", 1, j_isflint);
+        def_fp_bool("is_even", "C02", 1, j_iseven);
+        def_fp_bool("is_odd", "C02", 1, j_isodd);
+        // sign / signnz
+        auto j_sign = XSV_J { using T = XSV_T; cls |= fp_cls(a[0]); if (std::isnan(a[0])) { exp = a[0]; return std::isnan(got) ? J_OK : J_FAIL; } exp = (T)(a[0] > 0 ? 1 : (a[0] < 0 ? -1 : 0)); return (got == exp) ? J_OK : J_FAIL; };
+        auto j_signnz = XSV_J { using T = XSV_T; if (std::isnan(a[0]) || a[0] == 0) return J_SKIP; cls |= fp_cls(a[0]) | (std::signbit(a[0]) ? CL_NEG : 0); exp = std::signbit(a[0]) ? (T)-1 : (T)1; return fin_bits<T>(got, exp, cls); };
+        def_fp("sign", "C02", 1, j_sign);
+        def_fp("signnz", "C02", 1, j_signnz);
+        // frexp (finite inputs), ldexp (2^e normal), nextafter
+        auto j_frexp_m = XSV_J { using T = XSV_T; if (!std::isfinite(a[0])) return J_SKIP; int e; exp = std::frexp(a[0], &e); cls |= fp_cls(a[0]) | CL_BOUNDARY; return fin_bits<T>(got, exp, cls); };
+        auto j_frexp_e = [](auto* a, int64_t, auto got, auto& exp, unsigned& cls) -> int { if (!std::isfinite(a[0])) return J_SKIP; int e; (void)std::frexp(a[0], &e); exp = e; cls |= fp_cls(a[0]) | CL_BOUNDARY; return got == exp ? J_OK : J_FAIL; };
+        def_fp("frexp_m", "C02", 1, j_frexp_m);
+        def_fp_toint("frexp_e", "C02", 1, j_frexp_e);
+        {
+            OpDef& d = new_op("ldexp", "C02", "fp", 2);
+            d.kind[1] = K_IEXP;
+            d.judge[F32] = [](const void* const* in, int64_t, const void* got, void* exp, unsigned* cls, std::string*) -> int {
+                float x, g;
+                int32_t e;
+                memcpy(&x, in[0], 4);
+                memcpy(&e, in[1], 4);
+                memcpy(&g, got, 4);
+                if (e < fpt<float>::emin || e > fpt<float>::emax)
+                    return J_SKIP;
+                float r = std::ldexp(x, e);
+                memcpy(exp, &r, 4);
+                *cls |= fp_cls(x) | fp_cls(r) | ((e == fpt<float>::emin || e == fpt<float>::emax) ? CL_EXTREME : 0) | (std::ldexp(r, -e) != x ? CL_INEXACT : 0);
+                return same(g, r) ? J_OK : J_FAIL;
+            };
+            d.judge[F64] = [](const void* const* in, int64_t, const void* got, void* exp, unsigned* cls, std::string*) -> int {
+                double x, g;
+                int64_t e;
+                memcpy(&x, in[0], 8);
+                memcpy(&e, in[1], 8);
+                memcpy(&g, got, 8);
+                if (e < fpt<double>::emin || e > fpt<double>::emax)
+                    return J_SKIP;
+                double r = std::ldexp(x, (int)e);
+                memcpy(exp, &r, 8);
+                *cls |= fp_cls(x) | fp_cls(r) | ((e == fpt<double>::emin || e == fpt<double>::emax) ? CL_EXTREME : 0) | (std::ldexp(r, -(int)e) != x ? CL_INEXACT : 0);
+                return same(g, r) ? J_OK : J_FAIL;
+            };
+        }
+        auto j_nextafter = XSV_J { using T = XSV_T; exp = std::nextafter(a[0], a[1]); cls |= fp_cls(a[0]) | fp_cls(a[1]) | fp_cls(exp) | CL_BOUNDARY; return fin_same<T>(got, exp, cls); };
+        def_fp("nextafter", "C02", 2, j_nextafter).gen_hint = "nextafter";
+
+        // ---------------- C08 rounding: numeric equality with libm, sign of zero free
+        auto rcls = [](auto x) -> unsigned {
+            using T = decltype(x);
+            unsigned c = fp_cls(x);
+            if (!std::isfinite(x))
+                return c;
+            T ax = std::fabs(x);
+            T fr = ax - std::floor(ax);
+            if (fr == (T)0.5)
+                c |= CL_TIE;
+            T r = std::nearbyint(x);
+            if (x != r && (std::fabs(x - r) <= 2 * std::numeric_limits<T>::epsilon() * std::max(ax, (T)1)))
+                c |= CL_BOUNDARY;
+            if (ax >= std::ldexp((T)1, model::fpt<T>::mant))
+                c |= CL_EXTREME;
+            if (x > -1 && x < 0)
+                c |= CL_NEG;
+            if (fr != 0)
+                c |= CL_INEXACT;
+            return c;
+        };
+        auto j_ceil = [rcls](auto* a, int64_t, auto got, auto& exp, unsigned& cls) -> int { using T = XSV_T; exp = std::ceil(a[0]); cls |= rcls(a[0]); return numeq<T>(got, exp) ? J_OK : J_FAIL; };
+        auto j_floor = [rcls](auto* a, int64_t, auto got, auto& exp, unsigned& cls) -> int { using T = XSV_T; exp = std::floor(a[0]); cls |= rcls(a[0]); return numeq<T>(got, exp) ? J_OK : J_FAIL; };
+        auto j_trunc = [rcls](auto* a, int64_t, auto got, auto& exp, unsigned& cls) -> int { using T = XSV_T; exp = std::trunc(a[0]); cls |= rcls(a[0]); return numeq<T>(got, exp) ? J_OK : J_FAIL; };
+        auto j_round = [rcls](auto* a, int64_t, auto got, auto& exp, unsigned& cls) -> int { using T = XSV_T; exp = std::round(a[0]); cls |= rcls(a[0]); return numeq<T>(got, exp) ? J_OK : J_FAIL; };
+        auto j_nearbyint = [rcls](auto* a, int64_t, auto got, auto& exp, unsigned& cls) -> int { using T = XSV_T; exp = std::nearbyint(a[0]); cls |= rcls(a[0]); return numeq<T>(got, exp) ? J_OK : J_FAIL; };
+        def_fp("ceil", "C08", 1, j_ceil);
+        def_fp("floor", "C08", 1, j_floor);
+        def_fp("trunc", "C08", 1, j_trunc);
+        def_fp("round", "C08", 1, j_round);
+        def_fp("nearbyint", "C08", 1, j_nearbyint);
+        def_fp("rint", "C08", 1, j_nearbyint);
+        auto j_nbi_int = [rcls](auto* a, int64_t, auto got, auto& exp, unsigned& cls) -> int {
+            using I = XSV_T;
+            if (!std::isfinite(a[0]))
+                return J_SKIP;
+            auto r = std::nearbyint(a[0]);
+            if (!(r >= (decltype(r))std::numeric_limits<I>::min() && r < -(decltype(r))std::numeric_limits<I>::min()))
+                return J_SKIP; // does not fit the destination
+            exp = (I)r;
+            cls |= rcls(a[0]);
+            return got == exp ? J_OK : J_FAIL;
+        };
+        auto j_to_int = [rcls](auto* a, int64_t, auto got, auto& exp, unsigned& cls) -> int {
+            using I = XSV_T;
+            if (!std::isfinite(a[0]))
+                return J_SKIP;
+            auto r = std::trunc(a[0]);
+            if (!(r >= (decltype(r))std::numeric_limits<I>::min() && r < -(decltype(r))std::numeric_limits<I>::min()))
+                return J_SKIP;
+            exp = (I)r;
+            cls |= rcls(a[0]);
+            return got == exp ? J_OK : J_FAIL;
+        };
+        def_fp_toint("nearbyint_as_int", "C08", 1, j_nbi_int);
+        def_fp_toint("to_int", "C08", 1, j_to_int);
+    }
 }
 #endif
